@@ -872,4 +872,125 @@ theorem preprocess_units (f : F) (hf : f.units) (hs : f.spAll SpeciesShape) :
   rw [← h2, ← h3]
   exact ⟨preprocess_seq s h1, tx0_ne_nil s h1⟩
 
+
+/-! ### any nesting of the juxtaposition tree -/
+
+def Sq.last : Sq → U
+  | .one u => u
+  | .cons _ _ s => s.last
+
+def Sq.app : Sq → Gap → Sq → Sq
+  | .one u, g, t => .cons u g t
+  | .cons u g' s, g, t => .cons u g' (s.app g t)
+
+theorem app_head (s : Sq) (g : Gap) (t : Sq) : (s.app g t).head = s.head := by
+  cases s <;> rfl
+
+theorem app_last (s : Sq) (g : Gap) (t : Sq) : (s.app g t).last = t.last := by
+  induction s with
+  | one u => rfl
+  | cons u g' s ih => simpa [Sq.app, Sq.last] using ih
+
+theorem app_valid (s : Sq) (g : Gap) (t : Sq) (hs : s.valid) (ht : t.valid)
+    (hj : s.last.isCh = true → t.head.isCh = false) : (s.app g t).valid := by
+  induction s with
+  | one u => exact ⟨hs, ht, hj⟩
+  | cons u g' s ih =>
+    obtain ⟨h1, h2, h3⟩ := hs
+    exact ⟨h1, ih h2 hj, by rw [app_head]; exact h3⟩
+
+theorem sepx0 (g : Gap) (u : U) : sepx 0 g u = g.text := by cases g <;> simp [sepx, Gap.text]
+theorem sepx4 (g : Gap) (u : U) : sepx 4 g u = symAdd := by cases g <;> simp [sepx]
+
+theorem app_tx0 (s : Sq) (g : Gap) (t : Sq) : tx 0 (s.app g t) = tx 0 s ++ (g.text ++ tx 0 t) := by
+  induction s with
+  | one u => simp [Sq.app, tx, sepx0]
+  | cons u g' s ih => simp [Sq.app, tx, sepx0, ih, List.append_assoc]
+
+theorem app_tx4 (s : Sq) (g : Gap) (t : Sq) : tx 4 (s.app g t) = tx 4 s ++ (symAdd ++ tx 4 t) := by
+  induction s with
+  | one u => simp [Sq.app, tx, sepx4]
+  | cons u g' s ih => simp [Sq.app, tx, sepx4, ih, List.append_assoc]
+
+def F.headGrT : F → Bool
+  | .seq _ a _ => a.headGrT
+  | .plus a _ => a.headGrT
+  | f => f.isGr
+
+def F.lastGr : F → Bool
+  | .seq _ _ b => b.lastGr
+  | .plus _ b => b.lastGr
+  | f => f.isGr
+
+/-- any tree of juxtapositions (any blanks) and explicit ` + ` whose leaves are units —
+    parenthesis-free formulas or parenthesised parenthesis-free groups without or with a count —
+    such that no two parenthesis-free units meet at a junction (together they are one unit) -/
+def F.unitsT : F → Prop
+  | .seq _ a b => (a.flat ∧ b.flat) ∨ (a.unitsT ∧ b.unitsT ∧ (a.lastGr = false → b.headGrT = true))
+  | .plus a b => (a.flat ∧ b.flat) ∨ (a.unitsT ∧ b.unitsT ∧ (a.lastGr = false → b.headGrT = true))
+  | f => f.flat ∨ f.group1
+
+theorem flat_ends (f : F) : f.flat → f.headGrT = false ∧ f.lastGr = false := by
+  induction f with
+  | seq k a b iha ihb => intro h; exact ⟨(iha h.1).1, (ihb h.2).2⟩
+  | plus a b iha ihb => intro h; exact ⟨(iha h.1).1, (ihb h.2).2⟩
+  | sp s => intro h; exact ⟨rfl, rfl⟩
+  | count g n _ => intro h; exact ⟨flat_not_gr _ h, flat_not_gr _ h⟩
+  | mulx g n _ => intro h; exact ⟨rfl, rfl⟩
+  | group g _ => intro h; exact absurd h (by simp [F.flat])
+
+theorem oneT_spec (f : F) (h : f.flat ∨ f.group1) (hh : f.headGrT = f.isGr) (hl : f.lastGr = f.isGr)
+    (hs : f.spAll SpeciesShape) :
+    ∃ s : Sq, s.valid ∧ tx 0 s = render f ∧ tx 4 s = renderExplicit f ∧ s.head.isCh = !f.headGrT ∧
+      s.last.isCh = !f.lastGr := by
+  obtain ⟨u, h1, h2, h3, h4⟩ := unit_spec f h hs
+  exact ⟨.one u, h1, h2, h3, by rw [hh]; exact h4, by rw [hl]; exact h4⟩
+
+theorem seqT_spec (f : F) : f.unitsT → f.spAll SpeciesShape →
+    ∃ s : Sq, s.valid ∧ tx 0 s = render f ∧ tx 4 s = renderExplicit f ∧ s.head.isCh = !f.headGrT ∧
+      s.last.isCh = !f.lastGr := by
+  induction f with
+  | sp s => intro h hs; exact oneT_spec _ h rfl rfl hs
+  | count g n _ => intro h hs; exact oneT_spec _ h rfl rfl hs
+  | mulx g n _ => intro h hs; exact oneT_spec _ h rfl rfl hs
+  | group g _ => intro h hs; exact oneT_spec _ h rfl rfl hs
+  | plus a b iha ihb =>
+    intro h hs
+    rcases h with ⟨ha, hb⟩ | ⟨ha, hb, c1⟩
+    · obtain ⟨u, h1, h2, h3, h4⟩ := unit_spec (.plus a b) (Or.inl ⟨ha, hb⟩) hs
+      have he := flat_ends (.plus a b) ⟨ha, hb⟩
+      exact ⟨.one u, h1, h2, h3, by rw [he.1]; exact h4, by rw [he.2]; exact h4⟩
+    · obtain ⟨sa, a1, a2, a3, a4, a5⟩ := iha ha hs.1
+      obtain ⟨sb, b1, b2, b3, b4, b5⟩ := ihb hb hs.2
+      refine ⟨sa.app .plus sb, app_valid _ _ _ a1 b1 ?_, ?_, ?_, ?_, ?_⟩
+      · intro hu
+        rw [a5] at hu
+        rw [b4, c1 (by simpa using hu)]; rfl
+      · simp [app_tx0, a2, b2, render, Gap.text]
+      · simp [app_tx4, a3, b3, renderExplicit]
+      · rw [app_head, a4]; rfl
+      · rw [app_last, b5]; rfl
+  | seq k a b iha ihb =>
+    intro h hs
+    rcases h with ⟨ha, hb⟩ | ⟨ha, hb, c1⟩
+    · obtain ⟨u, h1, h2, h3, h4⟩ := unit_spec (.seq k a b) (Or.inl ⟨ha, hb⟩) hs
+      have he := flat_ends (.seq k a b) ⟨ha, hb⟩
+      exact ⟨.one u, h1, h2, h3, by rw [he.1]; exact h4, by rw [he.2]; exact h4⟩
+    · obtain ⟨sa, a1, a2, a3, a4, a5⟩ := iha ha hs.1
+      obtain ⟨sb, b1, b2, b3, b4, b5⟩ := ihb hb hs.2
+      refine ⟨sa.app (.blanks k) sb, app_valid _ _ _ a1 b1 ?_, ?_, ?_, ?_, ?_⟩
+      · intro hu
+        rw [a5] at hu
+        rw [b4, c1 (by simpa using hu)]; rfl
+      · simp [app_tx0, a2, b2, render, Gap.text]
+      · simp [app_tx4, a3, b3, renderExplicit]
+      · rw [app_head, a4]; rfl
+      · rw [app_last, b5]; rfl
+
+theorem preprocess_unitsT (f : F) (hf : f.unitsT) (hs : f.spAll SpeciesShape) :
+    preprocess (render f) = renderExplicit f ∧ render f ≠ [] := by
+  obtain ⟨s, h1, h2, h3, _⟩ := seqT_spec f hf hs
+  rw [← h2, ← h3]
+  exact ⟨preprocess_seq s h1, tx0_ne_nil s h1⟩
+
 end SciVerif.C10
